@@ -372,6 +372,8 @@ func (st *state) validate(instance reflect.Value, schema *Schema, callerAnns *an
 				anns.allItems = true
 			}
 		}
+		// minContains, maxContains, unevaluatedItems and unevaluatedProperties were
+		// introduced after draft-07: there they are unknown keywords, which are ignored.
 		nContains := 0
 		if schema.Contains != nil {
 			for i := range instance.Len() {
@@ -380,19 +382,19 @@ func (st *state) validate(instance reflect.Value, schema *Schema, callerAnns *an
 					anns.noteIndex(i)
 				}
 			}
-			if nContains == 0 && (schema.MinContains == nil || *schema.MinContains > 0) {
+			if nContains == 0 && (st.rs.draft == draft7 || schema.MinContains == nil || *schema.MinContains > 0) {
 				return fmt.Errorf("contains: %s does not have an item matching %s", instance, schema.Contains)
 			}
 		}
 
 		// https://json-schema.org/draft/2020-12/draft-bhutton-json-schema-validation-01#section-6.4
 		// TODO(jba): check that these next four keywords' values are integers.
-		if schema.MinContains != nil && schema.Contains != nil {
+		if st.rs.draft == draft2020 && schema.MinContains != nil && schema.Contains != nil {
 			if m := *schema.MinContains; nContains < m {
 				return fmt.Errorf("minContains: contains validated %d items, less than %d", nContains, m)
 			}
 		}
-		if schema.MaxContains != nil && schema.Contains != nil {
+		if st.rs.draft == draft2020 && schema.MaxContains != nil && schema.Contains != nil {
 			if m := *schema.MaxContains; nContains > m {
 				return fmt.Errorf("maxContains: contains validated %d items, greater than %d", nContains, m)
 			}
@@ -435,7 +437,7 @@ func (st *state) validate(instance reflect.Value, schema *Schema, callerAnns *an
 		}
 
 		// https://json-schema.org/draft/2020-12/json-schema-core#section-11.2
-		if schema.UnevaluatedItems != nil && !anns.allItems {
+		if st.rs.draft == draft2020 && schema.UnevaluatedItems != nil && !anns.allItems {
 			// Apply this subschema to all items in the array that haven't been successfully validated.
 			// That includes validations by subschemas on the same instance, like allOf.
 			for i := anns.endIndex; i < instance.Len(); i++ {
@@ -627,7 +629,8 @@ func (st *state) validate(instance reflect.Value, schema *Schema, callerAnns *an
 			}
 		}
 
-		if schema.UnevaluatedProperties != nil && !anns.allProperties {
+		// Like unevaluatedItems, not a draft-07 keyword.
+		if st.rs.draft == draft2020 && schema.UnevaluatedProperties != nil && !anns.allProperties {
 			// This looks a lot like AdditionalProperties, but depends on in-place keywords like allOf
 			// in addition to sibling keywords.
 			for prop, val := range properties(instance) {
